@@ -425,6 +425,47 @@ func (r *Runner) Step(s Step) *Failure {
 			return r.ExFail
 		}
 		return nil
+	case s.Op == "syncedit":
+		// The client goes on editing while its sync request is in flight: the
+		// edit is made after the server handled the request and before the
+		// client applies the response (what any interactive application does).
+		if !p.Attached || s.E == "" || !IsEditOp(s.E) {
+			return r.Step(Step{Who: s.Who, Op: "sync"})
+		}
+		if r.P.Cfg.Flags["serial"] == 1 {
+			// serial stratum (no concurrency by construction): sync, then edit
+			if f := r.Step(Step{Who: s.Who, Op: "sync"}); f != nil {
+				return f
+			}
+			return r.Step(Step{Who: s.Who, Op: s.E, A: s.A, B: s.B, C: s.C})
+		}
+		r.log("c%d: sync, editing while the request is in flight", p.Idx)
+		fired := false
+		var inner *Failure
+		world.Rec.SetInflight(func(method string, req proto.Message) {
+			m, ok := req.(*api.PushPullChangesRequest)
+			if ok && m.ClientId == p.ID && !fired {
+				fired = true
+				inner = r.Step(Step{Who: s.Who, Op: s.E, A: s.A, B: s.B, C: s.C})
+			}
+		})
+		f := r.sync(p, false)
+		world.Rec.SetInflight(nil)
+		if inner != nil {
+			return inner
+		}
+		if f != nil {
+			f.Msg = "(an edit was made while the request was in flight) " + f.Msg
+			return f
+		}
+		if !fired {
+			return failf("HARNESS", "in-flight callback did not fire")
+		}
+		r.Ev["edit_while_sync_in_flight"]++
+		if r.ExFail != nil {
+			return r.ExFail
+		}
+		return nil
 	case s.Op == "attach":
 		if len(r.Peers) >= r.MaxPeers {
 			return r.Step(Step{Who: s.Who, Op: "sync"})
